@@ -560,4 +560,53 @@ func init() {
 		RequiredReach: []string{"c15_local_target_honoured_login", "c15_local_target_honoured_otp_login", "c15_local_target_honoured_totp_validate", "c15_local_target_honoured_sms_validate",
 			"c15_local_target_honoured_oauth2_callback", "c15_offsite_target_ignored"},
 	})
+
+	register(&Profile{
+		ID: "C17",
+		Config: func(r *Rng, tier string) Config {
+			c := baseConfig(r)
+			if r.Chance(1, 5) {
+				c.ensureSetups("expire")
+				c.dropModules("remember")
+			} else {
+				c.dropSetups("expire")
+			}
+			c.ensureModules("confirm", "recover")
+			if r.Chance(1, 2) {
+				c.dropModules("lock")
+			}
+			return c
+		},
+		Gen: func(r *Rng, tier string) *genProfile {
+			return &genProfile{MaxSteps: steps(tier, 40, 100), Default: 1, FollowUp: 60, Template: 35,
+				Templates: []string{"recover_flow", "confirm_flow", "token_near_miss", "register_flow", "otp_flow", "remember_cycle", "enroll_totp", "login_ok"},
+				Weights:   loginWeights, BadSecret: 40, ThreshGaps: 10, SmallGaps: 20, FaultRate: 60, Redir: 5}
+		},
+		Oracle:        newC17Oracle,
+		Nontrivial:    func(s *Stats) bool { return s.Reach["c17_secrets_scanned"] > 0 && s.Reach["c17_log_lines_scanned"] > 0 },
+		RequiredReach: []string{"c17_secrets_scanned", "c17_log_lines_scanned", "c17_mail_checked_confirm", "c17_mail_checked_recover", "c17_mail_checked_everify"},
+	})
+	register(&Profile{
+		ID: "C19",
+		Config: func(r *Rng, tier string) Config {
+			c := baseConfig(r)
+			c.dropSetups("expire")
+			c.ensureModules("register", "logout")
+			if r.Bool() {
+				c.ensureModules("confirm")
+			} else {
+				c.dropModules("confirm")
+			}
+			c.PwMinLen = r.Intn(13)
+			c.PwMinUpper, c.PwMinLower, c.PwMinNum, c.PwMinSym = r.Intn(3), r.Intn(3), r.Intn(3), r.Intn(3)
+			c.PwAllowSpace = r.Bool()
+			return c
+		},
+		GenFn: func(r *Rng, tier string, w *World) Generator {
+			return &c19Gen{r: r, max: steps(tier, 30, 80)}
+		},
+		Oracle:        newC19Oracle,
+		Nontrivial:    anyReach("c19_created"),
+		RequiredReach: []string{"c19_created", "c19_duplicate", "c19_logged_in", "c19_not_logged_in_with_confirm", "c19_policy_ok_accepted", "c19_policy_bad_rejected"},
+	})
 }
